@@ -47,6 +47,11 @@ func SequenceJobs(r *rng) []Job {
 		dm(30, 0),
 		{Format: gozxing.BarcodeFormat_QR_CODE, Content: digits(r, 40), Scale: 1, Photo: -1},
 	}
+	// one QR symbol per kind of ECI-selected text decoder (work.go QRCharsets): whatever object decodes the bytes of an
+	// ECI segment must be the caller's own
+	for _, cs := range QRCharsets {
+		jobs = append(jobs, Job{Format: gozxing.BarcodeFormat_QR_CODE, Content: txt(6 + r.intn(20)), Scale: 1 + r.intn(2), Photo: -1, Charset: cs})
+	}
 	for i := range AztecSymbols {
 		nd := 1 + r.intn(3)
 		if AztecSymbols[i].Layers >= 23 {
